@@ -245,3 +245,30 @@ Proof.
   intros H. unfold mi_check_sites. destruct (get _ _); [|reflexivity]. cbn [negb andb b2n].
   destruct (N.ltb_spec capRaw (lenN data + 20)); [lia | reflexivity].
 Qed.
+
+(* ---------- Build with attribute setters ---------- *)
+Fixpoint setters_tvs (ss : list setter) : option (list (N * list byte)) :=
+  match ss with
+  | [] => Some []
+  | s :: r => match setter_tv s, setters_tvs r with Some tv, Some l => Some (tv :: l) | _, _ => None end
+  end.
+Lemma apply_setters_adds ss : forall m m' l, setters_tvs ss = Some l -> apply_setters m ss = (m', Ok tt) -> adds m l = Ok m'.
+Proof.
+  induction ss as [|s r IH]; intros m m' l Hl E; cbn [setters_tvs apply_setters] in *.
+  - injection Hl as <-. injection E as <-. reflexivity.
+  - destruct (setter_tv s) as [tv|] eqn:Et; [|discriminate]. destruct (setters_tvs r) as [l'|] eqn:Er; [|discriminate].
+    injection Hl as <-. destruct (apply_setter m s) as [m1| | |] eqn:Ea; try (unfold lift in E; discriminate).
+    destruct tv as [t v]. pose proof (setter_is_add m s m1 (t, v) Et Ea) as Hadd. cbn [fst snd] in Hadd.
+    cbn [adds]. rewrite Hadd. cbn [bind]. apply (IH m1 m' l' eq_refl E).
+Qed.
+
+(* a Build of text / ERROR-CODE / UNKNOWN-ATTRIBUTES / raw setters into a warm Message keeps Raw's backing
+   array iff the message that results fits the capacity it had *)
+Theorem setters_no_realloc ss l m m' : synced m -> setters_tvs ss = Some l -> apply_setters m ss = (m', Ok tt) ->
+  Forall (fun tv => lenN (snd tv) < 65536) l -> len (m_raw m) + 65544 * lenN l < 4294967296 ->
+  len (m_raw m') <= cap (m_raw m) -> cap (m_raw m') = cap (m_raw m).
+Proof. intros S Hl E F B L. apply (adds_no_realloc l m m' S (apply_setters_adds ss m m' l Hl E) F B L). Qed.
+Theorem setters_realloc ss l m m' : synced m -> setters_tvs ss = Some l -> apply_setters m ss = (m', Ok tt) ->
+  Forall (fun tv => lenN (snd tv) < 65536) l -> len (m_raw m) + 65544 * lenN l < 4294967296 ->
+  cap (m_raw m) < len (m_raw m') -> cap (m_raw m) < cap (m_raw m').
+Proof. intros S Hl E F B L. apply (adds_realloc l m m' S (apply_setters_adds ss m m' l Hl E) F B L). Qed.
